@@ -157,6 +157,12 @@ func classes() []classDef {
 		{"privTCP4", false, false, false, 5, func(c int) string { return fmt.Sprintf("/ip4/192.168.%d.%d/tcp/4001", (c>>8)&255, c&255) }},
 		{"privUDP6", false, true, true, 4, func(c int) string { return "/ip6/fd00::" + hx(c) + "/udp/4001/quic-v1" }},
 		{"privTCP6", false, false, true, 2, func(c int) string { return "/ip6/fd00:1::" + hx(c) + "/tcp/4001" }},
+		// neither public nor private for go-multiaddr/net (benchmark net, documentation prefix, class E):
+		// the statement only ever speaks of PUBLIC addresses - these are never removed and their dial
+		// outcomes are no observation of the public internet
+		{"unroutableUDP4", false, true, false, 5, func(c int) string { return fmt.Sprintf("/ip4/198.18.%d.%d/udp/4001/quic-v1", (c>>8)&255, c&255) }},
+		{"docUDP6", false, true, true, 4, func(c int) string { return "/ip6/2001:db8::" + hx(c) + "/udp/4001/quic-v1" }},
+		{"classEUDP4", false, true, false, 2, func(c int) string { return fmt.Sprintf("/ip4/240.1.%d.%d/udp/4001/quic-v1", (c>>8)&255, c&255) }},
 		{"loopUDP4", false, true, false, 2, func(c int) string { return fmt.Sprintf("/ip4/127.0.%d.1/udp/%d/quic-v1", (c>>14)&255, 1024+c&16383) }},
 		{"relayTCP4", true, false, false, 3, func(c int) string { return "/ip4/13." + abc(c) + "/tcp/4001/p2p/" + relay + "/p2p-circuit" }},
 		{"relayUDP4", true, true, false, 2, func(c int) string {
@@ -1490,6 +1496,7 @@ func swarmPart(r *run.R) {
 		return
 	}
 	race := os.Getenv("VERIF_RACE") == "1"
+	ctxEndsBeforeDial(r)
 	type fam struct {
 		name     string
 		n, steps int
